@@ -102,6 +102,10 @@ CHECKS = [
   "every single-site mutant of the accepted programs of the C01 families (quick: every k-th program of each family, about 400 bases and 10 000 mutants; thorough: all, about 12 300 bases) for the defect kinds {undeclared metric, capture index too high, unknown capture name, capture used in a sibling block, undefined decorator, next outside a decorator, one index key too many / too few, redeclared name, unused declaration, invalid regular expression, regular expression over the length limit, integer division / modulus by the literal 0}: Compile returns errors and no code, at least one error position lies inside the source (file name, 1<=line<=lines, 1<=column<=line length+1), and Runtime.CompileAndRun refuses the program (error, no VM, prog_load_errors_total +1)",
   "mutation sites are the nodes of the generator's own syntax trees; decorator definitions themselves are not mutated",
   "exhaustive single-site mutation of an enumerated program corpus on the real compiler and loader", "§3 C24"),
+ ("C11", "gosim", "exploration",
+  "for every pair (thorough: also 8 triples) of activities from {VM processing three lines incl. creating and deleting label tuples, Store.Gc with a limit and an expired datum, Collect, HandleJSON, HandleVarz, HandleGraphite, push writer, reload (compile edited source, Store.Add, first line on the new VM)} on one store: all schedules with <=1 (thorough 2) deviations of the instrumented real metrics, datum, exporter and vm code, where every synchronisation operation and every access to a hooked shared field (Metric.LabelValues/labelValuesMap/Source/Limit/Buckets/Keys, LabelValue.Expiry/Value/Labels, Store.Metrics, String.Value, Buckets.Buckets/Count/Sum, VM.runtimeError/terminate/input) is a scheduling point; oracles: no pair of conflicting accesses unordered by the happens-before relation of mtail's own synchronisation (source-level vector clocks; scheduler hand-offs add no edge), no deadlock or panic, the audited counter equals the increments issued, an exported value of it lies in the range it ever held",
+  "deviation bound, not full interleaving coverage; memory-order effects on fields that are not hooked are outside the detector; races are identified by field and the pair of (file, function) sites",
+  "stateless model checking of the implementation under a controlled scheduler with a source-level happens-before race detector", "§3 C11"),
 ]
 
 ENGINES = [
